@@ -18,6 +18,9 @@
    dlist <nodes> : pre E | app E | insb B E | insa A E | rem E | el N | len | head | tail | next E | prev E
      per op: '-' | 'e<node or ->' | 'n<length>', then '><forward walk>' '<<backward walk>'; an op whose
      precondition fails (inserting a member, removing / anchoring on a non-member) prints REJECT and ends
+   hash <n keys> <seed> :   prints (htab_hash_t) mir_hash (&key, sizeof key, seed) for key = 0..n-1 (the way
+     mir.c / c2mir.c hash their table elements); used by the generator to build htab scripts whose hash
+     table is the repo's real hash function
    Tokens starting with '#' are bookkeeping (capacity / representation), all others are the
    observables the property talks about.
    Output tokens per op: '-' (no value) 'v<int>' 'n<uint>' 'b<0|1>' ('#c<uint>' for cap) followed by
@@ -35,6 +38,7 @@
 #include "mir-bitmap.h"
 #include "mir-htab.h"
 #include "mir-dlist.h"
+#include "mir-hash.h"
 
 typedef long elt;
 DEF_VARR (elt);
@@ -464,6 +468,12 @@ int main (void) {
       run_htab (line + off, colon + 1);
     else if (!strcmp (kind, "dlist"))
       run_dlist (line + off, colon + 1);
+    else if (!strcmp (kind, "hash")) {
+      long nk = 0, seed = 0;
+      sscanf (line + off, " %ld %ld", &nk, &seed);
+      for (long k = 0; k < nk; k++) printf (" %u", (htab_hash_t) mir_hash (&k, sizeof (k), (uint64_t) seed));
+      printf ("\n");
+    }
     else
       printf ("?kind %s\n", kind);
     watchdog (0);
